@@ -80,6 +80,7 @@ def run_history(ops, rnd):
             if n == 'gfx':
                 g.map._gfx = new
         before = snapshot(g)
+        lab_before = bytes(g.label._data) if getattr(g, 'label', None) is not None else None
         raised = False
         try:
             g.write_cart_data(data, addr)
@@ -109,6 +110,10 @@ def run_history(ops, rnd):
         else:
             pick = changed[:8] + changed[-8:] + [changed[rnd.randrange(len(changed))] for _ in range(48)]
             vals = [[a, flat_a[a]] for a in pick]
+        # the label image is cart data that no address reaches: a change there is a change outside the addressed bytes
+        lab_after = bytes(g.label._data) if getattr(g, 'label', None) is not None else None
+        if lab_after != lab_before:
+            runs.append([TOP, TOP + 1])
         rec.append({'addr': addr, 'len': ln, 'raised': raised, 'sizes': sizes, 'runs': runs, 'vals': vals})
     return {'ops': rec}
 
